@@ -103,7 +103,7 @@ func runC05(c *Ctx) {
 	r.Clauses = []string{
 		"C05.1 the read-write transaction commits only below the no-errors edge of the dispatch result, aborts by defer, and commits on every path that returns results",
 		"C05.2 nothing reachable from the dispatch loop opens, commits or aborts a transaction (including read transactions: every read sees the transaction's own writes), and every memdb operation there goes through a transaction handed down as a parameter",
-		"C05.3 nothing reachable from the dispatch loop has effects outside the transaction except through tx.Defer (tombstone GC hint) — no goroutines, channel sends or event publication; the lock-delay timer is the one listed exception",
+		"C05.3 nothing reachable from the dispatch loop has effects outside the transaction except through tx.Defer (tombstone GC hint, lock-delay timer) — no goroutines, channel sends or event publication",
 		"C05.8 no map or slice that is part of a stored row (reached from a memdb read result through field selections or a shallow struct copy, without a Clone/DeepCopy in between) is mutated in place in package state: such a change happens outside the copy-on-write transaction and survives an abort",
 		"C05.4 in txn.Commit usage accounting and event generation can fail only before the memdb commit; events published are the ones generated from this transaction's change set; memdb commit precedes publish; both under commitLock",
 		"C05.5 the read-only transaction path hands a read transaction to the dispatch loop",
@@ -337,8 +337,7 @@ func runC05(c *Ctx) {
 						case strings.HasSuffix(rt, "TombstoneGC") && mn == "Hint":
 							r.Violate("C05.3", name+"/TombstoneGC.Hint", p.Pos(in.Pos()), "the tombstone GC is hinted directly instead of through tx.Defer: the hint survives an abort", via...)
 						case strings.HasSuffix(rt, "Delay") && mn == "SetExpiration":
-							r.Add(core.Obligation{Rule: "C05.3", Construct: name + "/Delay.SetExpiration", Pos: p.Pos(in.Pos()), Decision: core.Holds,
-								Reason: "listed exception: the lock-delay timer is leader-local, only delays later acquisitions, and is not among the leftovers the property forbids", Exception: "lock-delay"})
+							r.Violate("C05.3", name+"/Delay.SetExpiration", p.Pos(in.Pos()), "the lock delay is set directly instead of through tx.Defer: when a later operation of the transaction fails, the store is rolled back but the delay stays and refuses other sessions the key after a later regular release", via...)
 						case strings.HasSuffix(rt, "EventPublisher") || strings.Contains(rt, "stream."):
 							if mn == "Publish" {
 								r.Violate("C05.3", name+"/Publish", p.Pos(in.Pos()), "events are published from inside the dispatch loop, before commit", via...)
